@@ -191,7 +191,7 @@ func (k *kase) exec(w *world, c cmd) snap {
 		w.pdef = c.arg[0]
 		w.mu.Unlock()
 	}
-	pos := w.settle()
+	pos := w.settle(c.op == "cut")
 	s := w.snapshot(pos)
 	readerBlocked := false
 	for n, p := range s.pos {
